@@ -518,7 +518,19 @@ fn run(ctx: &Ctx, mode: &str) -> Report {
     report
 }
 
+
+fn fuzz_choices(v: &Value) -> Option<Vec<u16>> {
+    let b: Vec<u8> = serde_json::from_value(v.get("fuzz_bytes")?.clone()).ok()?;
+    Some(b.chunks(2).map(|c| u16::from_le_bytes([c[0], *c.get(1).unwrap_or(&0)])).collect())
+}
+
 fn replay(ctx: &Ctx, v: &Value) -> Result<String, String> {
+    if let Some(ch) = fuzz_choices(v) {
+        // the artifact may come from either target: both must hold
+        check_history(&decode(&ch, &GenOpts { monotone_per_key: false })).map_err(|(c, m)| format!("[{c}] {m}"))?;
+        check_tx(&decode_tx(&ch))?;
+        return Ok("both histories satisfy the predicates".into());
+    }
     if v.get("choices").is_some() {
         return super::c06::replay_ts(ctx, v);
     }
